@@ -48,7 +48,8 @@ AtomSets == {S \in SUBSET TypeAtoms : Cardinality(S) <= 1}
                   {<<"subdocument", FALSE>>, <<"document", TRUE>>}, {<<"script", TRUE>>, <<"script", FALSE>>} })
 PosOf(S) == {a[1] : a \in {x \in S : x[2]}}
 NegOf(S) == {a[1] : a \in {x \in S : ~x[2]}}
-DomVariants == { <<{}, {}>>, <<{"a.com"}, {}>>, <<{}, {"a.com"}>>, <<{"a.com"}, {"s.a.com"}>> }
+\* the last variant lists one domain both ways: exclusions win, so the rule applies to no source at all
+DomVariants == { <<{}, {}>>, <<{"a.com"}, {}>>, <<{}, {"a.com"}>>, <<{"a.com"}, {"s.a.com"}>>, <<{"a.com"}, {"a.com"}>> }
 ShapesC03 ==
   { [R0 EXCEPT !.body = B("ab")],
     [R0 EXCEPT !.body = B("ab"), !.exc = TRUE],
